@@ -162,6 +162,7 @@ class HostInterp:
         self.lookup_table = lookup_table
         self.subtler = subtler_token
         self.globals_env = globals_env or {}
+        self.host_types = (list, str, tuple, set, dict)  # host objects whose public methods interpreted code may call
         self.steps = 0
 
     # ------------------------------------------------------------------ entry
@@ -342,7 +343,7 @@ class HostInterp:
                 raise AnalysisError(f"rewriter interpretation: unknown attribute self.{e.attr}")
             if isinstance(obj, ast.AST):
                 return getattr(obj, e.attr)
-            if isinstance(obj, (list, str, tuple, set, dict)) and not e.attr.startswith("_"):
+            if isinstance(obj, self.host_types) and not e.attr.startswith("_"):
                 return getattr(obj, e.attr)
             import re as _re
 
@@ -420,6 +421,14 @@ class HostInterp:
             if isinstance(e.op, ast.Mult) and isinstance(a, (list, str, int)) and isinstance(b, int):
                 return a * b
             raise AnalysisError("interpretation: unsupported arithmetic")
+        if isinstance(e, ast.BinOp) and isinstance(e.op, ast.Mod):
+            a, b = self.ev(e.left, env), self.ev(e.right, env)
+            if isinstance(a, str) and isinstance(b, (str, int, float, tuple, dict)) or isinstance(a, int) and isinstance(b, int):
+                try:
+                    return a % b
+                except (TypeError, ValueError, ZeroDivisionError) as ex:
+                    raise AnalysisError(f"interpretation: % failed on abstract values: {ex}")
+            raise AnalysisError("interpretation: unsupported %")
         if isinstance(e, ast.BinOp) and isinstance(e.op, ast.Add):
             a, b = self.ev(e.left, env), self.ev(e.right, env)
             if isinstance(a, tuple) and isinstance(b, tuple) or isinstance(a, list) and isinstance(b, list) or isinstance(a, str) and isinstance(b, str) or isinstance(a, int) and isinstance(b, int):
@@ -555,7 +564,7 @@ class HostInterp:
         import re as _re
         import textwrap as _tw
 
-        if fn in SAFE_BUILTINS.values() or (callable(fn) and getattr(fn, "__self__", None) is not None and isinstance(fn.__self__, (list, str, tuple, set, dict, _re.Match))) or getattr(fn, "__module__", None) in ("re", "textwrap", "itertools", "functools"):
+        if fn in SAFE_BUILTINS.values() or (callable(fn) and getattr(fn, "__self__", None) is not None and isinstance(fn.__self__, self.host_types + (_re.Match,))) or getattr(fn, "__module__", None) in ("re", "textwrap", "itertools", "functools"):
             try:
                 return fn(*args, **kwargs)
             except (TypeError, ValueError, KeyError, IndexError) as ex:
